@@ -155,7 +155,7 @@ func genLeaf(t *rapid.T, p *plan, kind string) sm.Value {
 	if kind == "" {
 		switch p.family {
 		case "int":
-			kind = pick(t, append([]string{"uint8"}, intKinds...), "ikind")
+			kind = pick(t, append([]string{"uint8", "int16", "int32"}, intKinds...), "ikind")
 		case "float":
 			kind = pick(t, sm.FloatKinds, "fkind")
 		case "string":
@@ -194,7 +194,7 @@ func build(t *rapid.T, p *plan, d int, goType string) sm.Value {
 	case d == 1 && chance(t, 25, "typedleafslice") && p.family != "mixed":
 		k := genLeaf(t, p, "").Kind
 		if k == "uint8" {
-			k = "uint16"
+			k = "uint" // []uint8 is []byte
 		}
 		elem = k
 	default:
@@ -473,6 +473,8 @@ func fitNumber(t *rapid.T, vals []sm.Value) sm.Def {
 		drop := -1
 		if chance(t, pViolate, "enumviolate") {
 			drop = rapid.IntRange(0, len(vals)-1).Draw(t, "enumdrop")
+		} else if odd && chance(t, 50, "oddinstead") {
+			drop = 0 // the entry of another Go type stands where the value's own entry would be
 		}
 		for i, r := range rats {
 			if drop >= 0 && r.Cmp(rats[drop]) == 0 {
@@ -724,7 +726,7 @@ func gen(t *rapid.T) Case {
 	if p.typed {
 		p.leafKind = genLeaf(t, p, "").Kind
 		if p.leafKind == "uint8" {
-			p.leafKind = "uint16" // []uint8 is []byte
+			p.leafKind = "uint32" // []uint8 is []byte
 		}
 	}
 	c.Value = build(t, p, depth, "")
